@@ -126,7 +126,7 @@ extern int g_mon_strict_info; extern int g_mon_i3_strict; extern int g_yield_pru
 typedef struct {
     long events, yields, switches, takes, pipe_takes, dad_takes, go_takes, blocked_waits, spins, prunes,
          newnsuper, lusup_allocs, dyn_setmaps, threads_with_panels, npanels, nrelaxed, updates_done, updates_busy,
-         max_fill_permille, min_slack, tail_max, thread_starts, thread_exits, prune_while_dfs, takes_with_busy, singular_events, no_candidate, tight_slots, dfs_steps, prune_steps, prune_during_read, double_prune, mutex_waits;
+         max_fill_permille, min_slack, tail_max, thread_starts, thread_exits, prune_while_dfs, takes_with_busy, singular_events, no_candidate, tight_slots, dfs_steps, prune_steps, prune_during_read, double_prune, mutex_waits, long_stalls;
 } mon_stats;
 extern mon_stats g_mon;
 
